@@ -926,6 +926,14 @@ func (c *Compiler) linkRecursiveCode(ctx *compileContext) {
 		lastCode.ElemIdx = lastCode.Idx + uintptrSize
 		lastCode.Length = lastCode.Idx + 2*uintptrSize
 
+		// interface ops in the copied code must reserve the whole recursive frame,
+		// including the slots used by OpRecursiveEnd
+		for c := code; !c.IsEnd(); c = c.IterNext() {
+			if c.Op == OpInterface || c.Op == OpInterfacePtr {
+				c.Length = uint32(totalLength + 1)
+			}
+		}
+
 		// extend length to alloc slot for elemIdx + length
 		curTotalLength := uintptr(recursive.TotalLength()) + 3
 		nextTotalLength := uintptr(totalLength) + 3
